@@ -284,20 +284,7 @@ def build_extra(name, what):
     mod = sol(name)
     par = SPEC[name].get("par")
     with setpar(mod, par[0] if par else None, PAR_):
-        if what == "theta_out":
-            gam = sp.Matrix(mod.gammadown3(T_, X_, Y_, Z_, analytical=True))
-            gu = gam.inv()
-            r = sp.sqrt(X_**2 + Y_**2 + Z_**2)
-            xs = (X_, Y_, Z_)
-            dr = [sp.diff(r, c) for c in xs]
-            mag = sp.sqrt(sum(gu[i, j] * dr[i] * dr[j]
-                              for i in range(3) for j in range(3)))
-            sup = [sum(gu[i, j] * dr[j] for j in range(3)) / mag
-                   for i in range(3)]
-            sq = sp.sqrt(gam.det())
-            div = sum(sp.diff(sq * sup[i], xs[i]) for i in range(3)) / sq
-            exprs = [div] + sup
-        elif what == "dOmega":
+        if what == "dOmega":
             Om = mod.Omega(X_)
             exprs = [Om, sp.diff(Om, X_), sp.diff(Om, X_, 2)]
         elif what == "dA":
@@ -410,6 +397,30 @@ class Geo:
         self.betaup = bu
         self.ndown = np.array([-self.alpha, 0.0, 0.0, 0.0])
         self.curv = self.S2 + self.S1 ** 2
+
+
+def div_radial_normal(geo, xyz):
+    """D_i s^i for the unit normal s^i = gamma^ij d_j r / |dr| of the
+    coordinate spheres r = const about the origin, from gamma and its exact
+    first derivatives (d r, dd r analytic)."""
+    xv = np.array(xyz, float)
+    r = math.sqrt(xv @ xv)
+    gam = geo.g[1:, 1:]
+    dgam = geo.dg[1:, 1:, 1:]                 # [k,a,b]
+    gu = np.linalg.inv(gam)
+    dgu = -np.einsum('ia,jb,kab->kij', gu, gu, dgam)
+    r1 = xv / r
+    r2 = np.eye(3) / r - np.outer(xv, xv) / r ** 3
+    v = gu @ r1
+    dv = np.einsum('kij,j->ki', dgu, r1) + np.einsum('ij,jk->ki', gu, r2)
+    m2 = v @ r1
+    dm2 = dv @ r1 + r2 @ v
+    m = math.sqrt(m2)
+    dm = dm2 / (2 * m)
+    sup = v / m
+    ds = dv / m - np.outer(dm, v) / m2        # [k,i] = d_k s^i
+    Gtr = 0.5 * np.einsum('ab,kab->k', gu, dgam)
+    return float(np.trace(ds) + Gtr @ sup), sup
 
 
 def grade(note, disc, err, scale, observed, tol=TOL):
@@ -625,8 +636,7 @@ def point_checks(name, mod, num, i, p, par, geo, lam, tol, obs, note):
               (geo.cond * geo.curv) ** 2,
               dict(obs, module=kr, from_metric=float(geo.c4["Kr"])),
               tol=1e-10)
-        vals = _mp_eval(build_extra(name, "theta_out"), p, par)
-        div, sup = vals[0], np.array(vals[1:])
+        div, sup = div_radial_normal(geo, p[1:])
         theta = div
         if abs(geo.alpha) > 1e-3:
             Kor = geo.twoalphaK / (2 * geo.alpha)
